@@ -36,7 +36,7 @@ def SEQ(vs, once=False):
 
 
 def DICT(kvs):
-    return {"t": "dict", "kvs": [{"k": k, "v": v} for k, v in kvs]}
+    return {"t": "dict", "kvs": [{"k": k, "lk": k.lower(), "v": v} for k, v in kvs]}
 
 
 def OBJ(kind):
@@ -128,7 +128,7 @@ def Open(tag="el", define=(), sw=NOE, cs=NOE, cond=NOE, rep=None, sub=None, omit
         "sattr": [({"n": n, "key": n.lower(), "val": S("v%d" % j)} if isinstance(n, str) else
                    {"n": n[0], "key": n[0].lower(), "lex": n[1], "val": S(_plain(n[1].get("v", "v%d" % j)))})
                   for j, n in enumerate(sattr, 1)],
-        "dattr": [{"n": n, "key": n.lower(), "e": e, "d": n == "", "b": n in bools} for n, e in dattr],
+        "dattr": [{"n": n, "key": n.lower(), "e": e, "d": n == "", "b": n.lower() in bools} for n, e in dattr],
         "oe": {"m": "yes", "s": bool(oe[0]), "e": oe[1]} if oe else {"m": "no", "s": False, "e": NOE},
     }
     # METAL: dm define-macro name; um = (macro name or None for a whole template, library index, extend?);
